@@ -56,7 +56,7 @@ fn hook(asynchronous: bool, menu: &[Out]) -> HookCfg {
     HookCfg { asynchronous, menu }
 }
 
-/// Hook layouts: 0 = none, 1 = one sync per kind, 2 = one async per kind,
+/// Hook layouts (5 = two sync, 6 = two async per kind): 0 = none, 1 = one sync per kind, 2 = one async per kind,
 /// 3 = (sync, async) per kind, 4 = (async, sync) per kind.
 fn with_hooks(mut c: PoolCfg, layout: u8, menu: &[Out]) -> PoolCfg {
     let v = match layout {
@@ -64,7 +64,9 @@ fn with_hooks(mut c: PoolCfg, layout: u8, menu: &[Out]) -> PoolCfg {
         1 => vec![hook(false, menu)],
         2 => vec![hook(true, menu)],
         3 => vec![hook(false, menu), hook(true, menu)],
-        _ => vec![hook(true, menu), hook(false, menu)],
+        4 => vec![hook(true, menu), hook(false, menu)],
+        5 => vec![hook(false, menu), hook(false, menu)],
+        _ => vec![hook(true, menu), hook(true, menu)],
     };
     c.pre_recycle = v.clone();
     c.post_recycle = v.clone();
@@ -357,6 +359,24 @@ pub fn c03_scenarios(tier: Tier) -> Vec<Scenario> {
         sc.gets_nonblocking = false;
         v.push(seq(&format!("abandon-histories/hooks{}/ms{}", layout, ms), "histories in which every manager / hook call suspends and any pending get() may be abandoned at that point", if b.thorough { 4 } else { 3 }, sc));
     }
+    // the same through the runtime's timeout wrappers: pool built with wait /
+    // create / recycle timeouts that never fire (tokio runtime, paused clock);
+    // a call may be abandoned at every point at which the wrapper or the
+    // wrapped step is suspended
+    for (layout, max) in [(0u8, false), (2, true)] {
+        let mut c = PoolCfg::simple(1);
+        c.create_menu = SUSPENDING.to_vec();
+        c.recycle_menu = SUSPENDING.to_vec();
+        c = with_hooks(c, layout, SUSPENDING);
+        let mut sc = SeqScenario::new(c, if b.thorough { 9 } else { 7 }, base);
+        sc.max_tasks = 2;
+        sc.prefill = 1;
+        sc.take = false;
+        sc.gets_nonblocking = false;
+        sc.timeouts = true;
+        sc.timeouts_max = max;
+        v.push(seq(&format!("abandon-histories-with-timeouts/hooks{}/{}", layout, if max { "max" } else { "hour" }), "abandonment at every suspension point of calls that run through the timeout wrappers (timeouts of one hour / Duration::MAX never fire)", if b.thorough { 4 } else { 3 }, sc));
+    }
     // pool states reached through resize(): permits owed after a shrink while
     // gets are waiting, creating or recycling - and are then abandoned
     for (ms, prefill, targets) in [(2usize, 1usize, vec![1usize, 2]), (1, 0, vec![0, 2])] {
@@ -379,7 +399,7 @@ pub fn c03_scenarios(tier: Tier) -> Vec<Scenario> {
 pub fn c04_scenarios(tier: Tier, base: &[&'static str]) -> Vec<Scenario> {
     let b = bounds(tier);
     let mut v = Vec::new();
-    for layout in 0u8..=4 {
+    for layout in 0u8..=6 {
         for lifo in [false, true] {
             if !b.thorough && lifo && layout != 3 && layout != 0 {
                 continue;
